@@ -21,6 +21,15 @@ for c in cases: print("\ncase:", readable(c)[:6000])
 if cases and os.path.exists(V + "/ocaml/_build/driver"):
     with tempfile.NamedTemporaryFile("w", suffix=".cases", delete=False) as f:
         f.write("\n".join(cases) + "\n")
+    if os.path.exists(V + "/.work/harness"):
+        # run the implementation (current /repo build of the harness) again on the same inputs
+        rr = subprocess.run([V + "/.work/harness", "-rerun", f.name], stdout=subprocess.PIPE, stderr=subprocess.PIPE, text=True)
+        fresh = [l for l in rr.stdout.splitlines() if l.startswith("(")]
+        if fresh:
+            print("\nre-run of the implementation on the same inputs:")
+            for c in fresh: print("  now:", readable(c)[:3000])
+            with open(f.name, "w") as g: g.write("\n".join(fresh) + "\n")
+        if rr.stderr.strip(): print("  (", rr.stderr.strip()[:300], ")")
     out = subprocess.run([V + "/ocaml/_build/driver", f.name], stdout=subprocess.PIPE, text=True).stdout
     print("\nverdicts (model vs recorded behaviour, property oracles):")
     for l in out.splitlines(): print("  ", l[:400])
